@@ -381,6 +381,34 @@ int main(int argc, char** argv)
     b.destroy_sandbox();
     a.destroy_sandbox();
   }
+  if (what == "sweep32" && kSize > 65536) {
+    // complete sweep of the 4 GiB instance through both translation paths and a pointer cell
+    sbx_t a, b;
+    a.create_sandbox(0);
+    b.create_sandbox(1);
+    auto* impl = b.get_sandbox_impl();
+    uintptr_t base = impl->base;
+    const void* example = reinterpret_cast<const void*>(base + 8);
+    tn<int**> cell;
+    cell.assign_raw_pointer(b, reinterpret_cast<int**>(base + 0x100));
+    long long bad_n = 0;
+    for (uint64_t o = 1; o < kSize; o++) {
+      if (!mine(o >> 20)) { o |= 0xfffff; continue; }
+      void* addr = reinterpret_cast<void*>(base + o);
+      bool ok = (uint64_t)b.get_sandboxed_pointer<int*>(addr) == o && reinterpret_cast<uintptr_t>(b.get_unsandboxed_pointer<int*>((PtrT)o)) == base + o &&
+                (uint64_t)sbx_t::get_sandboxed_pointer_no_ctx<int*>(addr, example) == o && reinterpret_cast<uintptr_t>(sbx_t::get_unsandboxed_pointer_no_ctx<int*>((PtrT)o, example)) == base + o;
+      PtrT w = (PtrT)o;
+      memcpy(reinterpret_cast<void*>(base + 0x100), &w, sizeof w);
+      tn<int*> back = *cell;
+      ok = ok && reinterpret_cast<uintptr_t>(back.UNSAFE_unverified()) == base + o;
+      n_eval++;
+      if (!ok && bad_n++ < 3) bad("sweep32", "wrong-translation", o, "offset does not round-trip on the 32-bit instance");
+      if ((o & 0xffffff) == 0 && expired()) break;
+    }
+    b.destroy_sandbox();
+    a.destroy_sandbox();
+    stat("sweep32_offsets", n_eval);
+  }
   if ((what == "all" || what == "histories") && kSize <= 65536) {
     int depth = g_thorough ? 7 : 5;
     std::set<std::string> lists;
